@@ -48,3 +48,23 @@ package nsx
 //vc:  assume at "errlog.DoLog(logFh, fmt.Sprintf("#1 secretFree(c.method) && secretFree(c.url)
 //vc:  assume at "errlog.DoLog(logFh, "#2 secretFree(bytes(c.postData))
 //vc:  assume at "errlog.DoLog(logFh, "#3 secretFree(bytes(resp))
+
+// ---- C04: group reuse kernel ----
+// A device group is reused for a Netspoc group only if no other Netspoc group
+// was bound to it before (such a group is, or will be, changed to other
+// addresses) and only if it holds exactly the same addresses in the same order.
+//vc:spec macro sameAddrs(a *nsxGroup, b *nsxGroup) bool = len(a.Expression[0].IPAddresses) == len(b.Expression[0].IPAddresses) && (forall k int :: { b.Expression[0].IPAddresses[k] } 0 <= k && k < len(b.Expression[0].IPAddresses) ==> b.Expression[0].IPAddresses[k] == a.Expression[0].IPAddresses[k])
+//vc:func findGroupOnDevice
+//vc:  invariant[C04] 1 "for _, id := range slices.Sorted(maps.Keys(ma))" true
+//vc:  invariant[C04] 2 "for i, n := range bAddr" @addressesEqualSoFar -1 <= rangeindex && (forall k int :: { bAddr[k] } 0 <= k && k <= rangeindex ==> bAddr[k] == aAddr[k])
+//vc:  ensures[C04] @reusedGroupIsFreeAndEqual result != nil ==> !result.needed && sameAddrs(result, gb)
+//vc:  ensures[C04] @reusedGroupIsOnDevice result != nil ==> (exists id string :: { ma[id] } (id in ma) && ma[id] == result)
+//vc:func (*rulesPair).adaptGroup
+//vc:  assert[C04] at "ga.needed = true" @deviceGroupBoundOnce !ga.needed && sameAddrs(ga, gb)
+//vc:  assert[C04] at "gb.nameOnDevice = ga.Id" @netspocGroupBoundOnce gb.nameOnDevice == ""
+// equalize (closure of equalizeGroups): a device group is changed in place to
+// the addresses of a Netspoc group only if it was not bound before, and a
+// Netspoc group is bound to only one device group.
+//vc:func (*rulesPair).equalizeGroups$1
+//vc:  assert[C04] at "ga.needed = true" @changedGroupWasFree !ga.needed
+//vc:  assert[C04] at "gb.nameOnDevice = ga.Id" @netspocGroupBoundOnce gb.nameOnDevice == ""
